@@ -5,11 +5,11 @@ P = {
     "level_text": "exploration: generated histories (depth <= 100) over one vnacal_t and up to three vnacal_new_t are compared step by step with the table model; failures shrink to a minimal replayable history.",
     "design_ref": "DESIGN.md section 3 C16",
     "sources": ["harness/props/C16.cpp"],
-    "rule": "random histories over make_scalar/vector/unknown/correlated_parameter, delete_parameter (live, predefined, deleted, never allocated, negative), new_alloc (1x1 of all 8 types, 2x2 SOLT), add_single_reflect_m/double_reflect_m/through_m, solve, add_calibration (new and existing names), delete_calibration, find/get_*, global and per-calibration property set/delete, get_parameter_value, new_free, vnacal_free at the end with whatever is still allocated; after every step every index -2..end+1 and every handle -2..top+2 is compared with the table model, slot contents are recognised by correcting a synthetic DUT measurement through the slot's own error box; non-trivial = >= 2 live calibrations at some point and (a delete or replace, or a parameter deleted while a vnacal_new_t uses it); distinct = distinct choice tapes",
+    "rule": "random histories over make_scalar/vector/unknown/correlated_parameter, delete_parameter (live, predefined, deleted, never allocated, negative), new_alloc (1x1 of all 8 types, 2x2 SOLT; every vnacal_new_t on the first 1..3 points of one of three frequency bands: overlapping-but-different, disjoint; unknown and correlated handles are shared between the vnacal_new_t and solved repeatedly on different grids), add_single_reflect_m/double_reflect_m/through_m, solve, add_calibration (new and existing names), delete_calibration, find/get_*, global and per-calibration property set/delete, get_parameter_value, new_free, vnacal_free at the end with whatever is still allocated; after every step every index -2..end+1 and every handle -2..top+2 is compared with the table model, slot contents are recognised by correcting a synthetic DUT measurement through the slot's own error box; a solved unknown / correlated parameter must return the truth of its MOST RECENT solve at that solve's frequencies and refuse frequencies well outside them; non-trivial = >= 2 live calibrations at some point and (a delete or replace, or a parameter deleted while a vnacal_new_t uses it); distinct = distinct choice tapes",
     "assumptions": COMMON_ASSUME + [
         "which free slot vnacal_add_calibration picks and which handle number a make function returns are tracked, not asserted (only: not a live one, and the one find/get then honour)",
         "vnacal_make_scalar_parameter may return the predefined handle of the same value (0, +1, -1); deleting a predefined handle may succeed or fail, the handle must stay valid either way",
-        "standards are added with live handles whose frequency range covers the calibration's; solves are asserted only for determined, well-conditioned standard sets (three reflects pairwise >= 0.4 apart per port, plus a through for 2x2)",
+        "standards are added with live handles whose frequency range covers the calibration's (vector parameters, and unknown / correlated parameters tied to one through their chain or sigma grid, only on the band of their knots: values are needed at knots only); a correlated parameter is only added while its `other` handle is live, and the standard behind it is the standard behind its `other` (zero correlation residual at the truth); solves are asserted only for determined, well-conditioned standard sets (three reflects pairwise >= 0.4 apart per port, plus a through for 2x2)",
     ],
     "tiers": tiers(
         quick=[{"name": "rand", "mode": "run", "count": 8000, "max_size": 100, "shards": 12}],
